@@ -261,7 +261,7 @@ func explainGoal(o *Obligation, out string, vc []*Term, goal *Term) {
 			}
 		}
 		walk(goal, 0)
-		if pv, _, err := o.GetValuesFor(vc, pp, 20, filepath.Join(out, fileSafe(o.Name)+".prop.smt2")); err == nil {
+		if pv, _, err := o.GetValuesFor(vc, pp, 90, filepath.Join(out, fileSafe(o.Name)+".prop.smt2")); err == nil {
 			for _, q := range pp {
 				fmt.Printf("               %s  ==  %s\n", q.Label, trunc(pv[q.Label], 80))
 			}
